@@ -15,7 +15,7 @@ from vf.core import Prop, Outcome
 from vf import romodel, rosets, detmodel, opseq
 from vf.quiet import quiet
 
-DET_ATOMS = ['abs', 'norm2', 'square', 'exp', 'log', 'softplus', 'entropy', 'sumexp', 'pnorm', 'power']
+DET_ATOMS = ['abs', 'norm1', 'norminf', 'norm2', 'square', 'exp', 'log', 'softplus', 'entropy', 'sumexp', 'pnorm', 'power']
 
 
 @st.composite
@@ -44,7 +44,9 @@ def c09_case(draw):
                'c': romodel._vec(draw, base['nz'] + base['nu']), 'c0': None, 'slack': draw(st.sampled_from([0.0, 1.0])),
                'a2': draw(st.sampled_from([-1.0, 1.0, 2.0])), 'x2bar': float(draw(st.integers(-1, 2)))}
         late_rows.append({'set': None, 'sense': 'le', 'rows': [row], 'style': draw(st.integers(0, 4)), 'late': True,
-                          'phase': draw(st.integers(1, nphase - 1))})
+                          'phase': draw(st.integers(1, nphase - 1)),
+                          # the late variable is an integer in half of the cases (column types must follow the columns)
+                          'vtype': draw(st.sampled_from(['C', 'I']))})
     sched = {'nphase': nphase, 'phase': phase,
              'create_early': [draw(st.booleans()) for _ in range(ncons)],
              'create_perm': draw(st.permutations(list(range(ncons)))),
@@ -184,7 +186,7 @@ def run_history(case):
     results = []
     for ph in range(sched['nphase']):
         if ph == 1 and case['late_rows']:
-            live.x2 = m.dvar(1)
+            live.x2 = m.dvar(1, case['late_rows'][0].get('vtype', 'C'))
             m.st(live.x2 >= -3, live.x2 <= 3)
         todo = [i for i in sched['st_perm'] if sched['phase'][i] == ph]
         for n_, i in enumerate(todo):
@@ -239,7 +241,7 @@ def scratch_value(case, upto):
     m = live.m
     default_needed = base['obj']['kind'] in ('min', 'max')
     if case['late_rows'] and upto >= 1:
-        live.x2 = m.dvar(1)
+        live.x2 = m.dvar(1, case['late_rows'][0].get('vtype', 'C'))
     objective(live, base)
     m.st(live.x >= np.array(base['xlo']), live.x <= np.array(base['xhi']))
     if live.x2 is not None:
@@ -296,7 +298,13 @@ class C09(Prop):
             return check_opseq(case)
         finish_late_rows(case)
         base, sched = case['base'], case['sched']
-        labels = ['phases:%d' % sched['nphase'], 'obj:' + base['obj']['kind'], 'set_objects:' + sched['set_objects']]
+        late_int = False
+        if case['late_rows'] and case['late_rows'][0].get('vtype') == 'I':
+            if solver_for(case)[1] == 'lp':
+                late_int = True
+            else:       # branch and bound inside ECOS is too inaccurate for the comparison: the late variable stays continuous
+                case = dict(case, late_rows=[dict(case['late_rows'][0], vtype='C')])
+        labels = ['phases:%d' % sched['nphase'], 'obj:' + base['obj']['kind'], 'set_objects:' + sched['set_objects']] + (['late_integer_variable'] if late_int else [])
         fams = sorted(set(f for s in base['sets'] for f in rosets.families_of(s)))
         labels += ['end:' + e for e in sched['end']]
         res, kind = run_history(case)
@@ -315,6 +323,8 @@ class C09(Prop):
                 return Outcome.fail('history_vs_scratch:phase%d:%s' % (min(ph, 1), 'atoms' if case['datoms'] else 'robust'),
                                     'phase %d: the model built by this history gives %.9g, the same model built from scratch gives %.9g' % (
                                         ph, rec['value'], ref), labels)
+            if late_int and ph >= 1:
+                rec['dual'] = None          # the dual of the continuous relaxation says nothing about the integer optimum
             if rec['dual'] is not None and abs(rec['sign'] * -rec['dual'] - ref) > 10 * tol * (1 + abs(ref)):
                 return Outcome.fail('dual_stale:phase%d' % min(ph, 1), 'phase %d: do_math(primal=False) solves to %.9g but the declared model has optimum %.9g' % (
                     ph, -rec['dual'] * rec['sign'], ref), labels)
